@@ -394,6 +394,9 @@ func (s *saver) saveMessage(msg *Message) *acmelibv1.Message {
 	pMsg.StartDelayTime = uint32(msg.startDelayTime)
 
 	for _, rec := range msg.Receivers() {
+		// the loader resolves a receiver through the saved nodes
+		addOrderedRef(s.refNodes, &s.nodeOrder, rec.node.entityID, rec.node)
+
 		pMsg.Receivers = append(pMsg.Receivers, &acmelibv1.MessageReceiver{
 			NodeEntityId:        rec.node.entityID.String(),
 			NodeInterfaceNumber: uint32(rec.number),
